@@ -1,51 +1,485 @@
 //go:build verif
 
+// Harness for C11: drives the real jsonrpc.Server (recording handlers of every signature shape,
+// random method tables) and the Lean model on the same inputs, and judges the real output with an
+// independent JSON-RPC 2.0 oracle.
 package main
 
 import (
 	"context"
+	"encoding/hex"
+	"encoding/json"
 	"fmt"
+	"os"
 	"strings"
+	"time"
 
-	"github.com/NethermindEth/juno/jsonrpc"
-	"github.com/NethermindEth/juno/utils/log"
+	"verif/harness/lib"
 )
 
-func main() {
-	s := jsonrpc.NewServer(4, log.NewNopZapLogger())
-	calls := 0
-	err := s.RegisterMethods(
-		jsonrpc.Method{Name: "nilres", Handler: func() (any, *jsonrpc.Error) { calls++; return nil, nil }},
-		jsonrpc.Method{Name: "echo", Params: []jsonrpc.Parameter{{Name: "a"}, {Name: "b", Optional: true}},
-			Handler: func(a any, b *int) (any, *jsonrpc.Error) { calls++; return []any{a, b}, nil }},
-	)
+type replayT struct {
+	World    WorldSpec `json:"world"`
+	InputHex string    `json:"input_hex"`
+	Input    string    `json:"input_text"`
+	Via      string    `json:"via,omitempty"` // "", "http", "ws"
+}
+
+// modelCfg: which of the two admissible behaviours (unchanged / repaired) the real server shows,
+// found by three probes; the Lean model is switched accordingly (the model follows the code).
+type modelCfg struct {
+	peek      string // "128" or "-"
+	nullNil   int
+	silentNot int
+}
+
+func (w *World) handle(input []byte) Obs {
+	w.reset()
+	var o Obs
+	done := lib.WithDeadline(20*time.Second, func() {
+		err, panicked, stack := lib.Try(func() error {
+			out, _, err := w.Server.HandleReader(context.Background(), strings.NewReader(string(input)))
+			o.Out = out
+			return err
+		})
+		if panicked {
+			o.Panicked, o.PanicMsg = true, err.Error()+"\n"+firstLines(stack, 12)
+		} else {
+			o.Err = err
+		}
+	})
+	if !done {
+		return Obs{Hung: true}
+	}
+	o.Calls, o.RecErrs = w.taken()
+	return o
+}
+
+func firstLines(s string, n int) string {
+	ls := strings.Split(s, "\n")
+	if len(ls) > n {
+		ls = ls[:n]
+	}
+	return strings.Join(ls, "\n")
+}
+
+func probe() (modelCfg, []string) {
+	var notes []string
+	w, err := NewWorld(fixedWorld(false, 2))
 	if err != nil {
-		panic(err)
+		return modelCfg{peek: "128"}, []string{"probe: " + err.Error()}
 	}
-	ws := strings.Repeat(" ", 128)
-	for _, in := range []string{
-		`{"jsonrpc":"2.0","method":"nilres","id":1}`,
-		`{"jsonrpc":"2.0","method":"echo","params":[1],"id":null}`,
-		`{"jsonrpc":"2.0","method":"nope"}`,
-		`{"jsonrpc":"2.0","method":"echo"}`,
-		`{"jsonrpc":"2.0","method":"nope","id":null}`,
-		`42`, `"x"`, `null`, `{}`, ``, `   `,
-		`{"jsonrpc":"2.0","method":"echo","params":[1],"id":1} trailing`,
-		`{"jsonrpc":"2.0","method":"echo","params":[1],"id":1.5}`,
-		`{"jsonrpc":"2.0","method":"echo","params":[1],"id":1e2}`,
-		`{"JSONRPC":"2.0","Method":"echo","PARAMS":[1],"ID":7}`,
-		`{"jſonrpc":"2.0","method":"echo","params":[1],"id":7}`,
-		`{"jsonrpc":"2.0","method":"echo","method":null,"params":[1],"id":7,"id":null}`,
-		`{"jsonrpc":"2.0","method":"echo","params":{"a":1,"a":2,"c":1,"d":2},"id":7}`,
-		ws[:127] + `[{"jsonrpc":"2.0","method":"echo","params":[1],"id":1}]`,
-		ws + `[{"jsonrpc":"2.0","method":"echo","params":[1],"id":1}]`,
-		ws + `{"jsonrpc":"2.0","method":"echo","params":[1],"id":1}`,
-		`[{"jsonrpc":"2.0","method":"echo","params":[1],"id":1},{"jsonrpc":2},3,{"jsonrpc":"2.0","method":"echo","params":[1]}]`,
-		`[`, `[]`, `[1`, `[] x`,
-		`{"jsonrpc":"2.0","method":"echo","params":[{"z":1,"a":[1.0,2e1,"é"]}, 12345678901234567890],"id":"abc\u0000"}`,
-	} {
-		before := calls
-		out, _, err := s.HandleReader(context.Background(), strings.NewReader(in))
-		fmt.Printf("IN  %.90q\nOUT %s err=%v calls=%d\n", in, out, err, calls-before)
+	c := modelCfg{peek: "128"}
+	o := w.handle([]byte(`{"jsonrpc":"2.0","method":"nilres","id":1}`))
+	if strings.Contains(string(o.Out), `"result"`) {
+		c.nullNil = 1
 	}
+	o = w.handle([]byte(`{"jsonrpc":"2.0","method":"no-such-method"}`))
+	o2 := w.handle([]byte(`{"jsonrpc":"2.0","method":"echo"}`))
+	if len(o.Out) == 0 && len(o2.Out) == 0 && !o.Hung && !o.Panicked {
+		c.silentNot = 1
+	}
+	isArr := func(n int) bool {
+		o := w.handle([]byte(strings.Repeat(" ", n) + `[{"jsonrpc":"2.0","method":"noargs","id":1}]`))
+		return strings.HasPrefix(string(o.Out), "[")
+	}
+	if isArr(128) && isArr(129) && isArr(5000) {
+		c.peek = "-"
+	}
+	notes = append(notes, fmt.Sprintf("model configuration from probes: peekLimit=%s nullForNilResult=%d silentNotificationErrors=%d", c.peek, c.nullNil, c.silentNot))
+	return c, notes
+}
+
+type runner struct {
+	f   lib.Flags
+	res *lib.Result
+	drv *lib.Driver
+	cfg modelCfg
+}
+
+func (rn *runner) setWorld(w *World) error {
+	bd := 0
+	if w.Spec.BatchDisabled {
+		bd = 1
+	}
+	a, err := rn.drv.Ask(fmt.Sprintf("cfg %d %s %d %d", bd, rn.cfg.peek, rn.cfg.nullNil, rn.cfg.silentNot))
+	if err != nil || a != "ok" {
+		return fmt.Errorf("driver cfg: %q %v", a, err)
+	}
+	a, err = rn.drv.Ask(w.tblLine())
+	if err != nil || a != "ok" {
+		return fmt.Errorf("driver tbl: %q %v", a, err)
+	}
+	return nil
+}
+
+// inLine: the `in` request for the driver, plus what the input looks like (for the histogram)
+func inLine(input []byte) (line string, tree *J, parses bool) {
+	lead := 0
+	for lead < len(input) && strings.IndexByte(" \t\r\n", input[lead]) >= 0 {
+		lead++
+	}
+	fb := 0
+	if lead < len(input) && input[lead] == '[' {
+		fb = 1
+	}
+	raw, err := firstValue(input)
+	if err != nil {
+		return fmt.Sprintf("in %d %d x", lead, fb), nil, false
+	}
+	t, err := parseTree(raw)
+	if err != nil {
+		return fmt.Sprintf("in %d %d x", lead, fb), nil, false
+	}
+	var sb strings.Builder
+	fmt.Fprintf(&sb, "in %d %d v ", lead, fb)
+	t.tokens(&sb)
+	return sb.String(), t, true
+}
+
+// matchMultiset: every model element matches a distinct implementation element
+func matchMultiset(model, impl []*J) bool {
+	if len(model) != len(impl) {
+		return false
+	}
+	used := make([]bool, len(impl))
+outer:
+	for _, m := range model {
+		for i, x := range impl {
+			if !used[i] && sameModelImpl(m, x) {
+				used[i] = true
+				continue outer
+			}
+		}
+		return false
+	}
+	return true
+}
+
+// sameModelImpl: sameJSON, except that the key list of "unexpected params: …" has Go map order
+func sameModelImpl(m, x *J) bool {
+	if m != nil && x != nil && m.K == '{' && x.K == '{' {
+		if me, xe := m.get("error"), x.get("error"); me != nil && xe != nil {
+			md, xd := me.get("data"), xe.get("data")
+			const pfx = "unexpected params: "
+			if md != nil && xd != nil && md.K == 's' && xd.K == 's' && strings.HasPrefix(md.S, pfx) && strings.HasPrefix(xd.S, pfx) {
+				if sortedBytes(md.S) != sortedBytes(xd.S) {
+					return false
+				}
+				m2 := &J{K: '{', O: append([]KV(nil), m.O...)}
+				for i := range m2.O {
+					if m2.O[i].K == "error" {
+						e2 := &J{K: '{', O: append([]KV(nil), me.O...)}
+						for k := range e2.O {
+							if e2.O[k].K == "data" {
+								e2.O[k].V = xd
+							}
+						}
+						m2.O[i].V = e2
+					}
+				}
+				return sameJSON(m2, x)
+			}
+		}
+	}
+	return sameJSON(m, x)
+}
+
+// compare the model's answer with what the implementation did; returns "" when they agree
+func compare(answer string, o Obs, batchShaped bool) string {
+	if answer == "dk" {
+		return ""
+	}
+	mt, rest, err := fromTokens(strings.Fields(answer))
+	if err != nil || len(rest) != 0 || mt.K != '[' || len(mt.A) != 2 {
+		return "driver answer unreadable: " + answer
+	}
+	var mbody *J
+	if len(mt.A[0].A) == 1 {
+		mbody = mt.A[0].A[0]
+	}
+	var ibody *J
+	if len(o.Out) > 0 {
+		raw, err := firstValue(o.Out)
+		if err == nil {
+			ibody, err = parseTree(raw)
+		}
+		if err != nil {
+			return "implementation output is not JSON"
+		}
+	}
+	switch {
+	case mbody == nil || ibody == nil:
+		if mbody != ibody {
+			return "one side is silent"
+		}
+	case mbody.K == '[' && ibody.K == '[' && batchShaped:
+		if !matchMultiset(mbody.A, ibody.A) {
+			return "batch responses differ (as multisets)"
+		}
+	default:
+		if !sameModelImpl(mbody, ibody) {
+			return "responses differ"
+		}
+	}
+	want := map[string]int{}
+	for _, c := range mt.A[1].A {
+		if c.K != '[' || len(c.A) != 2 {
+			return "driver log unreadable"
+		}
+		want[Call{Method: c.A[0].S, Args: c.A[1].A}.String()]++
+	}
+	got := map[string]int{}
+	for _, c := range o.Calls {
+		got[c.String()]++
+	}
+	if len(want) != len(got) {
+		return "handler invocations differ"
+	}
+	for k, n := range want {
+		if got[k] != n {
+			return "handler invocations differ"
+		}
+	}
+	return ""
+}
+
+func modelText(answer string) string {
+	if answer == "dk" {
+		return "dk"
+	}
+	mt, _, err := fromTokens(strings.Fields(answer))
+	if err != nil {
+		return answer
+	}
+	return mt.String()
+}
+
+func callsText(cs []Call) string {
+	parts := make([]string, len(cs))
+	for i, c := range cs {
+		parts[i] = c.String()
+	}
+	return strings.Join(parts, " ; ")
+}
+
+func mkReplay(w *World, input []byte, via string) replayT {
+	return replayT{World: w.Spec, InputHex: hex.EncodeToString(input), Input: string(input), Via: via}
+}
+
+// shrink: for a batch, try to exhibit the same violation with one entry only
+func (rn *runner) shrink(w *World, input []byte, sig string) []byte {
+	raw, err := firstValue(input)
+	if err != nil {
+		return input
+	}
+	t, err := parseTree(raw)
+	if err != nil {
+		return input
+	}
+	try := func(cand []byte) bool {
+		for _, v := range judge(w, cand, w.handle(cand)) {
+			if v.Sig == sig {
+				return true
+			}
+		}
+		return false
+	}
+	best := input
+	if c := t.bytes(nil); len(c) < len(best) && try(c) {
+		best = c
+	}
+	if t.K == '[' && len(t.A) > 1 {
+		for _, e := range t.A {
+			for _, cand := range [][]byte{e.bytes(nil), jArr(e).bytes(nil)} {
+				if len(cand) < len(best) && try(cand) {
+					best = cand
+				}
+			}
+		}
+	}
+	return best
+}
+
+// one input on one world: correspondence + oracle
+func (rn *runner) check(w *World, input []byte, answer string, tree *J, parses bool) {
+	res := rn.res
+	o := w.handle(input)
+	res.Case(string(input), parses && (tree.K == '{' || tree.K == '['))
+	// histogram
+	switch {
+	case !parses:
+		res.Hit("input:unparsable")
+	case tree.K == '[':
+		res.Hit("input:batch")
+		if len(tree.A) == 0 {
+			res.Hit("input:empty-batch")
+		}
+	case tree.K == '{':
+		res.Hit("input:object")
+	default:
+		res.Hit("input:other-json")
+	}
+	if len(o.Out) == 0 {
+		res.Hit("output:none")
+	} else {
+		for _, c := range []string{"-32700", "-32600", "-32601", "-32602", "-32603", `"code":44`, `"code":7`, `"result"`} {
+			if strings.Contains(string(o.Out), c) {
+				res.Hit("output:has " + strings.Trim(c, `"`))
+			}
+		}
+	}
+	res.HitN("handler-invocations", len(o.Calls))
+	if answer == "dk" {
+		res.Hit("model:dont-know")
+	}
+	if strings.HasPrefix(answer, "bad-op") {
+		res.Mismatch(lib.Mismatch{Sig: "driver-rejects-input", Input: describe(input), Model: answer})
+		return
+	}
+	res.Compared(1)
+	if why := compare(answer, o, parses && tree.K == '['); why != "" && !o.Hung && !o.Panicked {
+		res.Mismatch(lib.Mismatch{Sig: "dispatch: " + why, Input: map[string]any{"world": w.Spec, "input": describe(input)},
+			Model: modelText(answer), Impl: map[string]string{"out": string(o.Out), "calls": callsText(o.Calls)}})
+	}
+	for _, v := range judge(w, input, o) {
+		small := input
+		if !o.Hung {
+			small = rn.shrink(w, input, v.Sig)
+		}
+		what := v.What
+		if len(small) != len(input) {
+			for _, v2 := range judge(w, small, w.handle(small)) {
+				if v2.Sig == v.Sig {
+					what = v2.What
+				}
+			}
+		}
+		res.Violate(lib.Violation{Sig: v.Sig, What: what, Replay: mkReplay(w, small, "")})
+	}
+	if parses {
+		res.Sample(8, map[string]string{"input": describe(input), "output": string(o.Out), "calls": callsText(o.Calls)})
+	}
+}
+
+func (rn *runner) runWorld(spec WorldSpec, inputs [][]byte) error {
+	w, err := NewWorld(spec)
+	if err != nil {
+		rn.res.Note("world: %v", err)
+		return err
+	}
+	if err := rn.setWorld(w); err != nil {
+		return err
+	}
+	lines := make([]string, len(inputs))
+	trees := make([]*J, len(inputs))
+	parses := make([]bool, len(inputs))
+	for i, in := range inputs {
+		lines[i], trees[i], parses[i] = inLine(in)
+	}
+	answers, err := rn.drv.AskAll(lines)
+	if err != nil {
+		return err
+	}
+	for i, in := range inputs {
+		rn.check(w, in, answers[i], trees[i], parses[i])
+	}
+	return nil
+}
+
+func main() {
+	f := lib.ParseFlags()
+	res := lib.NewResult("inputs = byte strings sent to jsonrpc.Server.HandleReader (and, in the transport part, through " +
+		"jsonrpc.HTTP / jsonrpc.Websocket); non-trivial = distinct input whose first JSON value parses and is an object or an array")
+	drv, err := lib.StartDriver(f.Driver)
+	if err != nil {
+		res.Note("driver: %v", err)
+		lib.Finish(f, res)
+	}
+	defer drv.Close()
+	cfg, notes := probe()
+	for _, n := range notes {
+		res.Note("%s", n)
+	}
+	rn := &runner{f: f, res: res, drv: drv, cfg: cfg}
+
+	if f.Replay != "" {
+		var file struct {
+			Replay replayT `json:"replay"`
+		}
+		b, err := os.ReadFile(f.Replay)
+		if err == nil {
+			err = json.Unmarshal(b, &file)
+		}
+		if err != nil {
+			res.Note("replay: %v", err)
+			lib.Finish(f, res)
+		}
+		in, _ := hex.DecodeString(file.Replay.InputHex)
+		if err := rn.runWorld(file.Replay.World, [][]byte{in}); err != nil {
+			res.Note("replay: %v", err)
+		}
+		if file.Replay.Via != "" {
+			if w, err := NewWorld(file.Replay.World); err == nil {
+				rn.transports(w, [][]byte{in})
+			}
+		}
+		lib.Finish(f, res)
+	}
+
+	r := lib.NewRNG(f.Seed)
+	fail := func(err error) {
+		if err != nil {
+			res.Note("run aborted: %v", err)
+			res.Mismatch(lib.Mismatch{Sig: "harness-run-aborted", Model: err.Error()})
+			lib.Finish(f, res)
+		}
+	}
+	// 1. fixed world: corpus + exhaustive member combinations + random
+	nRandom := f.Scale(6000, 150000)
+	for i, spec := range []WorldSpec{fixedWorld(false, 4), fixedWorld(false, 1), fixedWorld(true, 3)} {
+		w, _ := NewWorld(spec)
+		inputs := corpus(w)
+		if i == 0 {
+			inputs = append(inputs, exhaustive()...)
+		}
+		g := &Gen{r: r.Fork(uint64(i)), w: w}
+		n := nRandom
+		if i > 0 {
+			n = nRandom / 6
+		}
+		for k := 0; k < n; k++ {
+			inputs = append(inputs, g.input())
+		}
+		fail(rn.runWorld(spec, inputs))
+	}
+	// 2. random tables
+	nWorlds := f.Scale(40, 600)
+	per := f.Scale(250, 600)
+	for i := 0; i < nWorlds; i++ {
+		wr := r.Fork(uint64(1000 + i))
+		spec := randomWorld(wr)
+		w, err := NewWorld(spec)
+		if err != nil {
+			res.Note("random world rejected: %v", err)
+			continue
+		}
+		inputs := corpus(w)
+		g := &Gen{r: wr, w: w}
+		for k := 0; k < per; k++ {
+			inputs = append(inputs, g.input())
+		}
+		fail(rn.runWorld(spec, inputs))
+	}
+	// 3. transports
+	{
+		spec := fixedWorld(false, 4)
+		w, _ := NewWorld(spec)
+		inputs := corpus(w)
+		g := &Gen{r: r.Fork(77), w: w}
+		for k := 0; k < f.Scale(150, 4000); k++ {
+			inputs = append(inputs, g.input())
+		}
+		rn.transports(w, inputs)
+	}
+	lib.Finish(f, res)
 }
